@@ -815,6 +815,7 @@ def oracle(ctx):
     ob = orbit_cases()
     ctx.count("oracle_orbit_cases", len(ob))
     evaluate(ctx, ob)
+    until_zone_stream(ctx)
     if len(unknown_violations(ctx)) >= 3:
         ctx.note("oracle stopped after the spelling / interval streams: failing inputs found")
         return
@@ -912,6 +913,32 @@ def run_hist_case(ctx, c, hist, tag):
                 "history": hist, "diff": {"kind": "interleaved"}}
         ctx.violation(res[0], case, res[1])
     return True
+
+
+def run_until_zone_case(ctx, c, tag):
+    res = H.run_until_zone(c)
+    if res == "skip":
+        ctx.count("until_zone_skipped")
+        return
+    ctx.count("until_zone_cases")
+    ctx.count("until_zone_" + tag)
+    ctx.count("until_zone_kind_" + c["until_kind"])
+    rule = {k: c.get(k) for k in ["freq", "interval", "wkst", "dtstart", "zone", "until_place", "until_kind", "until_utc", "n", "byhour", "byminute", "bysecond", "bysetpos"]}
+    ctx.case(json.dumps(rule, sort_keys=True))
+    if res is not None:
+        ctx.violation(res[0], {"rule": rule, "diff": {"kind": "until-zone"}}, res[1])
+
+
+def until_zone_stream(ctx):
+    """UNTIL in ANOTHER zone than DTSTART (RFC 5545: UTC) around the repeated hour and the gap of the start's zone, sub-daily
+    frequencies: `res > until` compares INSTANTS there; see c01_hist.run_until_zone"""
+    rng = ctx.subrng("until-zone")
+    for c in H.until_zone_cases(rng, ctx.budget(150, 1500)):
+        run_until_zone_case(ctx, c, "stream")
+        if len(unknown_violations(ctx)) >= 3:
+            break
+    ctx.note("UNTIL carried by another tzinfo than DTSTART (UTC / fixed offset / equal but distinct zone object) around DST transitions of the "
+             "start's zone: %d rules compared by instants with the unbounded sequence of the same rule" % ctx.hist.get("until_zone_cases", 0))
 
 
 def interleave_stream(ctx):
@@ -1222,7 +1249,9 @@ KNOWN = {k: _known(p) for k, p in CLASS.items()}
 def replay(ctx, payload):
     c = dict(payload["violation"]["case"]["rule"])
     before = len(ctx.violations)
-    if payload["violation"]["case"].get("history") is not None:
+    if c.get("zone") is not None:
+        run_until_zone_case(ctx, c, "replay")
+    elif payload["violation"]["case"].get("history") is not None:
         run_hist_case(ctx, c, payload["violation"]["case"]["history"], "replay")
     else:
         evaluate(ctx, [c])
